@@ -12,6 +12,24 @@ Fixpoint broker_emit {E R : Type} (ls : list (E -> option R)) (e : E) : option R
   | l :: ls' => match l e with Some r => Some r | None => broker_emit ls' e end
   end.
 
+(** What the session makes of Emit's result (handler.go: extAction := ActionDefer; if extResult != nil
+    { extAction = extResult.Action }): no result is "no answer". *)
+Definition session_answer (r : option hook_ans) : hook_ans :=
+  match r with Some a => a | None => NoAns end.
+
+(** A listener given by the answer it computes: "no answer" is a nil result - an explicit defer is a result. *)
+Definition answer_listener {E : Type} (f : E -> hook_ans) : E -> option hook_ans :=
+  fun e => match f e with NoAns => None | a => Some a end.
+
+(** A listener given by a rule table (the shape the correspondence check's scripts and Go listeners have). *)
+Fixpoint table_answer (t : list (str * hook_ans)) (a : str) : hook_ans :=
+  match t with
+  | [] => NoAns
+  | (k, h) :: t' => if str_eqb k a then h else table_answer t' a
+  end.
+Definition table_listener (t : list (str * hook_ans)) : str -> option hook_ans :=
+  answer_listener (table_answer t).
+
 (** What calling a Lua handler (CallByParam with Protect) produced. *)
 Inductive lua_value :=
   | LNil | LFalse | LTrue | LNumber | LString | LTable | LFunction
@@ -27,6 +45,10 @@ Definition smtp_answer (c : lua_call) : hook_ans :=
   | Returned (LResponse a) => a
   | _ => NoAns
   end.
+
+(** The Lua host as a listener on an SMTP broker. *)
+Definition lua_listener {E : Type} (call : E -> lua_call) : E -> option hook_ans :=
+  answer_listener (fun e => smtp_answer (call e)).
 
 (** handleBeforeMessageStored: nil/false, an error, or a value that is not an InboundMessage is
     "no answer"; whatever the handler did to its (copied) argument before is discarded. *)
